@@ -468,6 +468,7 @@ def evVerdict (impl : String) : Option String :=
 
 def c09Verdict (impl : String) : String :=
   if hasSub impl "STALE" then "bad:C09:slice-changed"
+  else if hasSub impl "CORRUPT" then "bad:C09:recycled-memory-read"
   else if hasSub impl "CLOBBER" then "bad:C09:region-clobbered"
   else if hasSub impl "caller=changed" then "bad:C09:caller-modified"
   else if hasSub impl "POOLED" then "bad:C09:pool-used-with-cache-disabled"
@@ -495,7 +496,20 @@ def c16Verdict (span : Nat) (impl : String) : String :=
     | _ => "bad:protocol"
   else "ok"
 
-def handleMem (args : List String) (impl : String) : String × String :=
+/-- projection of a model trace for the real-pool build (op names with suffix "~"): allocator events
+    are not observable there, and a location is only C+off (caller memory), P (anything else) or "-" -/
+def projTok (t : String) : String :=
+  if t == "G" then "P"
+  else if t.startsWith "M" ∧ hasSub t "+" ∧ (t.drop 1).toString.front.isDigit then "P"
+  else t
+
+def projReal (trace : String) : String :=
+  " / ".intercalate ((trace.splitOn " / ").map (fun r =>
+    match r.splitOn " | " with
+    | first :: _ => " ".intercalate ((first.splitOn " ").map projTok)
+    | [] => r))
+
+def handleMemBase (args : List String) (impl : String) : String × String :=
   match args with
   | ["rd", kind, stream, script, ops] =>
     match parseStream stream, parseScript script with
@@ -518,6 +532,15 @@ def handleMem (args : List String) (impl : String) : String × String :=
     | some sc, some sp, some its => (decModel mode sc sp its (parseOps ops), c16Verdict sp impl)
     | _, _, _ => ("bad-op", "na")
   | _ => ("bad-op", "na")
+
+def handleMem (args : List String) (impl : String) : String × String :=
+  match args with
+  | op :: rest =>
+    if op.endsWith "~" then
+      let r := handleMemBase ((op.dropEnd 1).toString :: rest) impl
+      (projReal r.1, r.2)
+    else handleMemBase args impl
+  | [] => ("bad-op", "na")
 
 end Verif.MemDrv
 
